@@ -39,8 +39,18 @@ def _call(fn, *a):
 
 
 def eval_parse(text):
+    """parse, let the caller scribble over the result, parse again: both parses must give the parts"""
     import productmd.common
-    return {"parsed": _call(productmd.common.parse_nvra, text)}
+    import copy
+    first = _call(productmd.common.parse_nvra, text)
+    out = {"parsed": copy.deepcopy(first)}
+    if first[0] == "ok" and isinstance(first[1], dict):
+        first[1]["arch"] = "CALLER-EDIT"
+        first[1]["name"] = str(first[1].get("name")) + "-debuginfo"
+        again = _call(productmd.common.parse_nvra, text)
+        if again != out["parsed"]:
+            out["second_parse_after_caller_edit"] = again
+    return out
 
 
 def eval_add(text, arch):
@@ -78,7 +88,7 @@ def run_unit(unit, acc):
                 text = prefix + core + suffix
                 o = eval_parse(text)
                 acc.ev()
-                if o["parsed"] != ["ok", want]:
+                if o != {"parsed": ["ok", want]}:
                     acc.violation("parse", {"kind": "parse", "text": text, "want": want}, o,
                                   "parse_nvra(%r) -> %s, generating parts %s" % (text, o["parsed"], want))
                     acc.outcome("parse:differs")
@@ -90,7 +100,7 @@ def run_unit(unit, acc):
         # canonical re-formatting is a fixed point
         o = eval_parse(canon)
         acc.ev()
-        if o["parsed"] != ["ok", want]:
+        if o != {"parsed": ["ok", want]}:
             acc.violation("fixedpoint", {"kind": "parse", "text": canon, "want": want}, o,
                           "canonical form %r does not parse back to its parts: %s" % (canon, o["parsed"]))
         # Rpms.add files the entry under the canonical key
